@@ -1,5 +1,5 @@
 (* Theorems about Reduction.v (C07): the reduction identity by exchange of two finite sums. *)
-From Coq Require Import QArith ZArith List Bool Lia Lqa Setoid.
+From Coq Require Import QArith ZArith List Bool Lia Lqa Setoid Sorted.
 From FL Require Import Num ListX Moments Moments_proofs Reduction.
 Import ListNotations.
 Open Scope Q_scope.
@@ -287,4 +287,357 @@ Proof.
   set (c := lagrangian k r eps fp fn rows lam h) in *.
   set (d := lagrangian k r eps fp fn rows lam h') in *.
   split; intro H; nra.
+Qed.
+
+
+(* ---------- project_lambda ---------- *)
+
+Lemma max0_spec x : 0 <= max0 x /\ ((0 <= x /\ max0 x == x) \/ (x <= 0 /\ max0 x == 0)).
+Proof.
+  unfold max0. destruct (Qltb x 0) eqn:B.
+  - apply Qltb_lt in B. split; [lra | right; split; lra].
+  - apply Qltb_ge in B. split; [lra | left; split; lra].
+Qed.
+
+Lemma max0_pos x : 0 <= x -> max0 x == x.
+Proof. intro H. destruct (max0_spec x) as [_ [[_ E]|[S E]]]; [exact E | rewrite E; lra]. Qed.
+Lemma max0_neg x : x <= 0 -> max0 x == 0.
+Proof. intro H. destruct (max0_spec x) as [_ [[S E]|[_ E]]]; [rewrite E; lra | exact E]. Qed.
+
+Lemma dot_app a b c d : length a = length c -> dot (a ++ b) (c ++ d) == dot a c + dot b d.
+Proof.
+  revert c. induction a as [|x a IH]; intros [|y c] L; try discriminate; cbn [app dot].
+  - ring.
+  - rewrite IH by (cbn in L; lia). ring.
+Qed.
+
+Lemma vsub_const eps l : vsub l (map (fun _ => eps) l) = map (fun x => x - eps) l.
+Proof.
+  unfold vsub. induction l as [|x l IH]; cbn [map zipw]; [reflexivity | rewrite IH; reflexivity].
+Qed.
+
+(* the pairwise core: with gm = -gp, replacing (lp, lm) by (max0 (lp-lm), max0 (lm-lp)) never lowers
+   lp.(gp-eps) + lm.(gm-eps) when lp, lm >= 0 and eps >= 0 *)
+Lemma project_pairs eps (lp lm gp gm : list Q) :
+  0 <= eps ->
+  length lm = length lp -> length gp = length lp ->
+  Forall2 (fun a b => b == - a) gp gm ->
+  Forall (fun x => 0 <= x) lp -> Forall (fun x => 0 <= x) lm ->
+  dot lp (map (fun x => x - eps) gp) + dot lm (map (fun x => x - eps) gm)
+  <= dot (map max0 (vsub lp lm)) (map (fun x => x - eps) gp)
+     + dot (map max0 (map Qopp (vsub lp lm))) (map (fun x => x - eps) gm).
+Proof.
+  intros He. revert lm gp gm.
+  induction lp as [|a lp IH]; intros [|b lm] [|p gp] gm L1 L2 HG Hp Hm; try discriminate.
+  (* the all-nil case is closed by computation *)
+  inversion HG as [|? q ? gm' Hq HG']; subst.
+  inversion Hp as [|? ? Ha Hp']; inversion Hm as [|? ? Hb Hm']; subst.
+    specialize (IH lm gp gm' ltac:(cbn in L1; lia) ltac:(cbn in L2; lia) HG' Hp' Hm').
+    unfold vsub. cbn [zipw map dot]. fold (vsub lp lm).
+    assert (Pa : 0 <= a * eps) by (apply Qmult_le_0_compat; assumption).
+    assert (Pb : 0 <= b * eps) by (apply Qmult_le_0_compat; assumption).
+    destruct (Qlt_le_dec 0 (a - b)) as [D|D].
+    + rewrite (max0_pos (a - b)) by lra. rewrite (max0_neg (- (a - b))) by lra. rewrite Hq. lra.
+    + rewrite (max0_neg (a - b)) by lra. rewrite (max0_pos (- (a - b))) by lra. rewrite Hq. lra.
+Qed.
+
+Lemma gamma_at_minus_plus k r rows h p :
+  r == 1 -> gamma_at k r rows h (Minus, p) == - gamma_at k r rows h (Plus, p).
+Proof.
+  intro Hr. unfold gamma_at, ucol. destruct p as [e g].
+  set (pe := prob_event k rows e). set (peg := prob_group_event k rows e g).
+  clearbody pe peg.
+  assert (D : forall x, dot (map (uentry k r Minus e g pe peg) rows) x
+                        == - dot (map (uentry k r Plus e g pe peg) rows) x).
+  { induction rows as [|rw rows' IH]; intros [|y x]; cbn [map dot]; try ring.
+    rewrite IH. unfold uentry. rewrite Hr. unfold Qdiv. ring. }
+  rewrite D. unfold Qdiv. ring.
+Qed.
+
+Lemma Forall2_map_pm k r rows h l :
+  r == 1 ->
+  Forall2 (fun a b => b == - a) (map (fun p => gamma_at k r rows h (Plus, p)) l)
+          (map (fun p => gamma_at k r rows h (Minus, p)) l).
+Proof.
+  intro Hr. induction l as [|p l IH]; cbn; constructor; auto.
+  apply gamma_at_minus_plus. exact Hr.
+Qed.
+
+Lemma Forall_max0 l : Forall (fun x => 0 <= x) (map max0 l).
+Proof. induction l; cbn; constructor; auto. apply max0_spec. Qed.
+
+Theorem project_lambda_sound (k : kind) (r eps : Q) (rows : list row) (lam : list Q) :
+  r == 1 -> 0 <= eps ->
+  length lam = length (index k rows) -> Forall (fun x => 0 <= x) lam ->
+  let m := length (pairs_of k rows) in
+  let lam' := project_lambda r m lam in
+  Forall (fun x => 0 <= x) lam' /\ length lam' = length lam /\
+  forall h, dot lam (vsub (gamma k r rows h) (bound eps k rows))
+            <= dot lam' (vsub (gamma k r rows h) (bound eps k rows)).
+Proof.
+  intros Hr He HL Hpos m lam'.
+  assert (Hm : length (index k rows) = (m + m)%nat).
+  { unfold index. rewrite app_length, !map_length. reflexivity. }
+  assert (Hlam : lam = firstn m lam ++ skipn m lam) by (symmetry; apply firstn_skipn).
+  set (lp := firstn m lam) in *. set (lm := skipn m lam) in *.
+  assert (Llp : length lp = m) by (unfold lp; rewrite firstn_length; lia).
+  assert (Llm : length lm = m) by (unfold lm; rewrite skipn_length; lia).
+  assert (E : lam' = map max0 (vsub lp lm) ++ map max0 (map Qopp (vsub lp lm))).
+  { unfold lam', project_lambda. fold lp lm.
+    assert (B : Qeqb r 1 = true) by (apply Qeq_bool_iff; exact Hr). rewrite B. reflexivity. }
+  assert (Lv : length (vsub lp lm) = m) by (unfold vsub; rewrite zipw_length; lia).
+  split; [|split].
+  - rewrite E. apply Forall_app. split; apply Forall_max0.
+  - rewrite E, app_length, !map_length, Lv. lia.
+  - intro h. rewrite gamma_is_map. unfold bound.
+    replace (map (fun _ : idx => eps) (index k rows))
+      with (map (fun _ : Q => eps) (map (gamma_at k r rows h) (index k rows)))
+      by (rewrite map_map; reflexivity).
+    rewrite vsub_const. unfold index. rewrite !map_app, !map_map.
+    rewrite E. rewrite Hlam at 1.
+    rewrite !dot_app by (rewrite ?map_length; lia).
+    rewrite <- !(map_map (fun p => gamma_at k r rows h (_, p)) (fun x => x - eps)).
+    apply project_pairs; try assumption; try lia.
+    + rewrite map_length. fold m. lia.
+    + apply Forall2_map_pm. exact Hr.
+    + rewrite Hlam in Hpos. apply Forall_app in Hpos. tauto.
+    + rewrite Hlam in Hpos. apply Forall_app in Hpos. tauto.
+Qed.
+
+Theorem project_lambda_ratio (r : Q) (m : nat) (lam : list Q) :
+  ~ r == 1 -> project_lambda r m lam = lam.
+Proof.
+  intro H. unfold project_lambda. destruct (Qeqb r 1) eqn:B; [|reflexivity].
+  apply Qeq_bool_iff in B. contradiction.
+Qed.
+
+(* shape restated in props/C07.v with the generated sw_entry *)
+Lemma src_signed_weights k r rows lam :
+  signed_weights k r rows lam
+  = zipw (fun ud ul => ud * ul) (map (udiff k) rows) (lincomb (length rows) (Umat k r rows) lam).
+Proof. reflexivity. Qed.
+
+
+(* ---------- BoundedGroupLoss: loss_identity ---------- *)
+
+Lemma zinsert_sorted x l : StronglySorted Z.lt l -> StronglySorted Z.lt (zinsert x l).
+Proof.
+  induction l as [|y l IH]; intro S; cbn [zinsert].
+  - repeat constructor.
+  - inversion S as [|? ? S' F]; subst.
+    destruct (x <? y)%Z eqn:A.
+    + apply Z.ltb_lt in A. constructor; [exact S|]. constructor; [exact A|].
+      eapply Forall_impl; [|exact F]. intros z Hz. cbn beta in Hz. lia.
+    + destruct (x =? y)%Z eqn:B; [exact S|].
+      apply Z.ltb_ge in A. apply Z.eqb_neq in B.
+      constructor; [apply IH; exact S'|].
+      apply Forall_forall. intros z Hz. apply zinsert_In in Hz. destruct Hz as [->|Hz]; [lia|].
+      rewrite Forall_forall in F. apply F. exact Hz.
+Qed.
+
+Lemma zuniq_sorted l : StronglySorted Z.lt (zuniq l).
+Proof. unfold zuniq. induction l; cbn [fold_right]; [constructor | apply zinsert_sorted; assumption]. Qed.
+
+Lemma sorted_NoDup l : StronglySorted Z.lt l -> NoDup l.
+Proof.
+  induction 1 as [|a l S IH F]; constructor; [|exact IH].
+  intro H. rewrite Forall_forall in F. specialize (F a H). lia.
+Qed.
+
+Lemma zuniq_NoDup l : NoDup (zuniq l).
+Proof. apply sorted_NoDup, zuniq_sorted. Qed.
+
+Definition gcol (g : Z) (gs : list Z) : list Q := map (fun gi => ind (gi =? g)%Z) gs.
+Definition glookup (g : Z) (m : list (Z * Q)) : Q := match zassoc g m with Some a => a | None => 0 end.
+
+Lemma dot_ext a b x : Forall2 Qeq a b -> dot a x == dot b x.
+Proof.
+  intro H. revert x. induction H as [|p q a b Hpq H IH]; intros [|y x]; cbn [dot]; try reflexivity.
+  rewrite Hpq, IH. reflexivity.
+Qed.
+
+Lemma group_sel_sum gs vals g :
+  qsum (map snd (filter (fun t : Z * Q => (fst t =? g)%Z) (combine gs vals))) == dot (gcol g gs) vals.
+Proof.
+  unfold gcol. revert vals. induction gs as [|gi gs IH]; intros [|v vals]; cbn [combine filter map qsum dot];
+    try reflexivity.
+  cbn [fst]. destruct (gi =? g)%Z; cbn [map qsum snd ind]; rewrite IH; unfold ind; ring.
+Qed.
+
+Lemma group_sel_len (rows : list lrow) vals g :
+  length vals = length rows ->
+  length (filter (fun t : Z * Q => (fst t =? g)%Z) (combine (map snd rows) vals))
+  = count_if (fun rw : lrow => (snd rw =? g)%Z) rows.
+Proof.
+  unfold count_if. revert vals. induction rows as [|rw rows IH]; intros [|v vals] L; try discriminate;
+    cbn [map combine filter]; [reflexivity|].
+  cbn [fst]. destruct (snd rw =? g)%Z; cbn [length]; rewrite IH by (cbn in L; lia); reflexivity.
+Qed.
+
+Lemma zassoc_notin {V} g idx (b : list V) : ~ In g idx -> zassoc g (combine idx b) = None.
+Proof.
+  revert b. induction idx as [|i idx IH]; intros [|x b] H; cbn [combine zassoc]; try reflexivity.
+  destruct (g =? i)%Z eqn:E; [apply Z.eqb_eq in E; subst; exfalso; apply H; left; reflexivity|].
+  apply IH. intro C. apply H. right. exact C.
+Qed.
+
+(* sum_g beta_g 1[g_i = g] is the lookup of g_i, for a duplicate-free index *)
+Lemma lincomb_lookup n gs idx beta :
+  n = length gs -> NoDup idx ->
+  Forall2 Qeq (lincomb n (map (fun g => gcol g gs) idx) beta)
+              (map (fun gi => glookup gi (combine idx beta)) gs).
+Proof.
+  intros -> ND. revert beta. induction ND as [|g idx Hg ND IH]; intro beta.
+  - cbn [map lincomb combine]. induction gs; cbn; constructor; [reflexivity | assumption].
+  - destruct beta as [|b beta].
+    + cbn [map lincomb combine]. clear. induction gs; cbn; constructor; [reflexivity | assumption].
+    + cbn [map lincomb combine]. specialize (IH beta).
+      set (rest := lincomb (length gs) (map (fun g0 => gcol g0 gs) idx) beta) in *.
+      assert (Lr : length rest = length gs).
+      { unfold rest. apply lincomb_length. apply Forall_forall. intros c Hc. apply in_map_iff in Hc.
+        destruct Hc as (g0 & <- & _). unfold gcol. apply map_length. }
+      clearbody rest. unfold gcol, vadd. revert rest IH Lr.
+      induction gs as [|gi gs IHg]; intros [|p rest] IH Lr; try discriminate; cbn [map zipw].
+      * constructor.
+      * inversion IH as [|? ? ? ? Hp IH']; subst. constructor; [|apply IHg; [exact IH' | cbn in Lr; lia]].
+        unfold glookup. cbn [zassoc]. unfold glookup in Hp.
+        destruct (gi =? g)%Z eqn:E.
+        -- apply Z.eqb_eq in E. subst gi. rewrite Hp, (zassoc_notin g idx beta Hg). unfold ind. ring.
+        -- rewrite Hp. unfold ind. ring.
+Qed.
+
+Lemma glookup_scale N g idx (a b : list Q) :
+  Forall2 (fun x y => x == N * y) a b ->
+  glookup g (combine idx a) == N * glookup g (combine idx b).
+Proof.
+  intro H. revert idx. unfold glookup.
+  induction H as [|x y a b Hxy H IH]; intros [|i idx]; cbn [combine zassoc]; try ring.
+  destruct (g =? i)%Z; [exact Hxy | apply IH].
+Qed.
+
+Definition gcount (rows : list lrow) (g : Z) : Q := inject_nat (count_if (fun rw : lrow => (snd rw =? g)%Z) rows).
+
+Lemma adjust_scale N lam (cs : list Q) :
+  Forall2 (fun x y => x == N * y) (zipw Qdiv lam (map (fun c => c / N) cs)) (zipw Qdiv lam cs).
+Proof.
+  revert cs. induction lam as [|l lam IH]; intros [|c cs]; cbn [map zipw]; constructor; [|apply IH].
+  unfold Qdiv. rewrite Qinv_mult_distr, Qinv_involutive. ring.
+Qed.
+
+Lemma dot_div_swap lam (S C : list Q) :
+  length S = length C ->
+  dot lam (zipw Qdiv S C) == dot (zipw Qdiv lam C) S.
+Proof.
+  revert S C. induction lam as [|l lam IH]; intros [|s S] [|c C] L; try discriminate; cbn [zipw dot];
+    try reflexivity.
+  rewrite IH by (cbn in L; lia). unfold Qdiv. ring.
+Qed.
+
+Lemma zipw_map_map {A} (f g : A -> Q) (l : list A) :
+  zipw Qdiv (map f l) (map g l) = map (fun x => f x / g x) l.
+Proof. induction l as [|x l IH]; cbn [map zipw]; [reflexivity | rewrite IH; reflexivity]. Qed.
+
+Lemma dot_ext_r x a b : Forall2 Qeq a b -> dot x a == dot x b.
+Proof.
+  intro H. revert x. induction H as [|p q a b Hpq H IH]; intros [|y x]; cbn [dot]; try reflexivity.
+  rewrite Hpq, IH. reflexivity.
+Qed.
+
+Lemma dot_map_scale {A} (f f' : A -> Q) N (l : list A) vals :
+  (forall a, f a == N * f' a) -> dot (map f l) vals == N * dot (map f' l) vals.
+Proof.
+  intro H. revert vals. induction l as [|a l IH]; intros [|v vals]; cbn [map dot]; try ring.
+  rewrite H, IH. ring.
+Qed.
+
+(* loss_identity: lambda . gamma(h) = (1/n) sum_i w_i loss_i(h) with w_i = lambda_{g(i)} / P(g(i)) *)
+Theorem loss_identity (l : loss) (rows : list lrow) (lam h : list Q) :
+  length h = length rows ->
+  dot lam (bgl_gamma l rows h)
+  == (1 / inject_nat (length rows)) * dot (bgl_signed_weights rows lam) (losses l rows h).
+Proof.
+  intro Lh.
+  destruct rows as [|rw0 rows0].
+  { unfold bgl_gamma, bgl_signed_weights. cbn [map bgl_index zuniq fold_right]. rewrite dot_nil_r. cbn [dot]. ring. }
+  set (rows := rw0 :: rows0) in *.
+  assert (HN : 0 < inject_nat (length rows)) by (apply inject_nat_pos; cbn; lia).
+  clearbody rows. clear rw0 rows0.
+  unfold bgl_gamma, bgl_signed_weights.
+  set (vals := losses l rows h).
+  assert (Lv : length vals = length rows).
+  { unfold vals, losses. rewrite zipw_length, Lh. apply Nat.min_id. }
+  clearbody vals. set (gs := map snd rows). set (idx := bgl_index rows).
+  set (N := inject_nat (length rows)) in *.
+  set (beta := zipw Qdiv lam (map (gcount rows) idx)).
+  set (D := dot (map (fun gi => glookup gi (combine idx beta)) gs) vals).
+  assert (LHS : dot lam (map (group_mean gs vals) idx) == D).
+  { assert (GM : Forall2 Qeq (map (group_mean gs vals) idx)
+                   (zipw Qdiv (map (fun g => dot (gcol g gs) vals) idx) (map (gcount rows) idx))).
+    { rewrite zipw_map_map. clear - Lv. induction idx as [|g idx IH]; cbn [map]; constructor; [|exact IH].
+      unfold group_mean, gcount. fold gs. rewrite group_sel_sum.
+      unfold gs. rewrite group_sel_len by assumption. reflexivity. }
+    rewrite (dot_ext_r _ _ _ GM).
+    rewrite dot_div_swap by (rewrite !map_length; reflexivity). fold beta.
+    rewrite <- (map_map (fun g => gcol g gs) (fun c => dot c vals)).
+    rewrite <- (dot_lincomb (length gs)).
+    2:{ apply Forall_forall. intros c Hc. apply in_map_iff in Hc. destruct Hc as (g0 & <- & _).
+        unfold gcol. apply map_length. }
+    apply dot_ext. apply lincomb_lookup; [reflexivity | apply zuniq_NoDup]. }
+  assert (RHS : dot (map (fun rw : lrow => match zassoc (snd rw) (combine idx (zipw Qdiv lam (prob_attr rows))) with
+                                           | Some a => a | None => 0 end) rows) vals == N * D).
+  { unfold D, gs. rewrite map_map.
+    apply dot_map_scale. intro rw. fold (glookup (snd rw) (combine idx (zipw Qdiv lam (prob_attr rows)))).
+    apply glookup_scale. unfold beta, prob_attr. fold idx. fold N.
+    rewrite <- (map_map (gcount rows) (fun c => c / N)). apply adjust_scale. }
+  rewrite LHS, RHS. field. intro C. rewrite C in HN. apply (Qlt_irrefl 0). exact HN.
+Qed.
+
+
+(* ---------- the n / sum|w| normalisation of _call_oracle ---------- *)
+
+Lemma w01_scale c ww yy h : w01 (map (fun x => c * x) ww) yy h == c * w01 ww yy h.
+Proof.
+  unfold w01. generalize (combine yy h) as l. induction ww as [|x ww IH]; intros [|t l]; cbn [map zipw qsum];
+    try ring.
+  rewrite IH. ring.
+Qed.
+
+Lemma w01_div_map K s a yy h :
+  w01 (map (fun x => K * x / s) a) yy h == w01 (map (fun x => K / s * x) a) yy h.
+Proof.
+  unfold w01. generalize (combine yy h) as l. induction a as [|x a IH]; intros [|t l];
+    cbn [map zipw qsum]; try reflexivity.
+  rewrite IH. unfold Qdiv. ring.
+Qed.
+
+Lemma qsum_abs_nonneg w : 0 <= qsum (map qabs w).
+Proof.
+  induction w as [|x w IH]; cbn [map qsum]; [lra|].
+  destruct (qabs_spec x) as [P N]. destruct (Qlt_le_dec x 0); [rewrite N by lra | rewrite P by lra]; lra.
+Qed.
+
+Lemma reweight_eg_scale w ww :
+  reweight_eg w = Some ww ->
+  exists c, 0 < c /\ forall yy h, w01 ww yy h == c * w01 (reweight w) yy h.
+Proof.
+  unfold reweight_eg, reweight. set (a := map qabs w). set (s := qsum a).
+  destruct (Qeqb s 0) eqn:E; [discriminate|]. intros [= <-].
+  assert (Hs : 0 < s).
+  { pose proof (qsum_abs_nonneg w) as H. fold a s in H. unfold Qeqb in E. apply Qeq_bool_neq in E.
+    destruct (Qlt_le_dec 0 s); [assumption|]. exfalso. apply E. lra. }
+  assert (Hn : 0 < inject_nat (length w)).
+  { apply inject_nat_pos. destruct w; [|cbn; lia]. exfalso. unfold s, a in Hs. cbn in Hs. lra. }
+  exists (inject_nat (length w) / s). split.
+  - apply Qlt_shift_div_l; lra.
+  - intros yy h. rewrite <- w01_scale. apply w01_div_map.
+Qed.
+
+(* the order of hypotheses under the weights _call_oracle really passes (n |w| / sum |w|) is the order under |w| *)
+Theorem reweight_eg_order (w ww yy h h' : list Q) :
+  reweight_eg w = Some ww ->
+  (w01 ww yy h <= w01 ww yy h' <-> w01 (reweight w) yy h <= w01 (reweight w) yy h').
+Proof.
+  intro H. destruct (reweight_eg_scale w ww H) as (c & Hc & E). rewrite !E.
+  set (a := w01 (reweight w) yy h). set (b := w01 (reweight w) yy h').
+  split; intro L; nra.
 Qed.
